@@ -60,6 +60,8 @@ type loopInfo struct {
 }
 
 type Exec struct {
+	// latch values of the header phis while an inv-step / variant check is evaluated (see backEdge)
+	stepVals map[*ssa.Phi]Term
 	vc     *VC
 	p      *Program
 	fn     *ssa.Function
@@ -864,35 +866,32 @@ func (e *Exec) setEdge(from, to *ssa.BasicBlock, c string) {
 }
 
 func (e *Exec) backEdge(from, to *ssa.BasicBlock, li *loopInfo, cond string) {
-	// bind phis to their latch values for the step check
-	saved := map[*ssa.Phi]Term{}
+	// The step check evaluates the invariant for the NEXT iteration: a name that denotes a header phi
+	// itself gets the phi's latch value. The phis are NOT rebound globally: a name defined in the loop
+	// body by `x = y` where y is a header phi must keep denoting y's value of THIS iteration.
 	var idx int = -1
 	for i, p := range to.Preds {
 		if p == from {
 			idx = i
 		}
 	}
+	stepVals := map[*ssa.Phi]Term{}
+	hdrVals := map[*ssa.Phi]Term{}
 	for _, ins := range to.Instrs {
 		phi, ok := ins.(*ssa.Phi)
 		if !ok {
 			break
 		}
-		saved[phi] = e.vals[phi]
-	}
-	newVals := map[*ssa.Phi]Term{}
-	for phi := range saved {
-		newVals[phi] = e.val(phi.Edges[idx])
-	}
-	for phi, v := range newVals {
+		hdrVals[phi] = e.vals[phi]
+		v := e.val(phi.Edges[idx])
 		v.T = phi.Type()
-		e.vals[phi] = v
+		stepVals[phi] = v
 	}
+	e.stepVals = stepVals
 	heap := e.curHeap
 	e.checkInvariants(li, "inv-step", cond, heap, from)
-	e.checkDecreases(li, cond, heap, from, saved)
-	for phi, v := range saved {
-		e.vals[phi] = v
-	}
+	e.checkDecreases(li, cond, heap, from, hdrVals)
+	e.stepVals = nil
 }
 
 // ---------------------------------------------------------------------------
